@@ -48,6 +48,20 @@ Print Assumptions c02_reset_leaves_no_stale_id.
 Theorem c02_stream_table_source_shape : xsrc_reset_deletes_unconditionally = true /\ xsrc_client_stream_fresh = true.
 Proof. exact (conj (eq_refl true) (eq_refl true)). Qed.
 
+(* XResponse of Model/XConn.v is ONE step - look the frame's id up, delete THAT id, then deliver.  Read from the source on
+   every run: handleResponse does lookup and delete in one clientMutex critical section, keyed by the id of the frame,
+   defers nothing, and calls the receiver after the unlock.  A delete that runs after the delivery and reads the id from
+   the stream object (seed C02-h) meets the object already re-used by a retry created inside OnReceive: it unregisters
+   the retry and leaves the answered id registered, so a duplicate frame is delivered to the retry.  In the model the
+   answered id is gone from the table when the delivery happens, whatever the history, and a second frame with it is dropped. *)
+Theorem c02_response_source_shape : xsrc_response_delete_atomic_before_deliver = true.
+Proof. exact (eq_refl true). Qed.
+
+Theorem c02_answered_id_is_gone_at_delivery : forall g x id x' s, xstep g x (XResponse id) = (x', ODeliver s) ->
+  lookup id (tbl x') = None /\ xstep g x' (XResponse id) = (x', ODrop).
+Proof. exact xconn_answered_id_gone. Qed.
+Print Assumptions c02_answered_id_is_gone_at_delivery.
+
 (* No id collision, through counter wrap-around.  `wok` is the executable ghost "no stream was kept in the table, or
    reset by its holder, id_space g (= 2^32 / 2^64) or more allocations after its own"; `displaced` counts how often a
    stream lost its table entry to ANOTHER stream carrying the same id.  After every history: wok -> displaced = 0;
